@@ -67,9 +67,19 @@ def doSort (st : FieldS.St) (toks : List String) : Option String :=
     pure (showRes (sort st.s ds rev lim ty ru) ++ " ## " ++ specAnswer st.t ds rev lim ty ru)
   | _ => none
 
+/-
+  lsort <h> <the arguments of sort>     the same sort, but the caller only keeps the (lazy) result under handle <h>
+  pull <h> <k>                          … and consumes k more ids of it (k = all: the rest) between other sorts
+
+A sort is a value here, so the answer to `lsort` is the answer to `sort` whatever is in flight at the same time
+and however the results are consumed (the run assembles the implementation's answer from all the pulls); `pull`
+answers `ok`.  The index is not modified while a handle is open.
+-/
 def step (st : FieldS.St) (toks : List String) : FieldS.St × String :=
   match toks with
   | "sort" :: rest => (st, (doSort st rest).getD "bad-op")
+  | "lsort" :: _h :: rest => (st, (doSort st rest).getD "bad-op")
+  | ["pull", _h, _k] => (st, "ok")
   | _ => FieldS.step st toks
 
 def sess : Sess := { σ := FieldS.St, st := {}, step := step }
